@@ -172,7 +172,7 @@ PLAN['C03'] = {
     'level': 'proof',
     'technique': 'Kani full-domain harnesses for local interval enclosure of comparison/select operations; bounded native contract runner (interval interpreter vs reference point semantics) for arithmetic and transcendental operations',
     'level_text': 'Proved for all intervals and all member points (Kani, bit-precise, loop-free): min, max, and, or, not, compare, abs, neg enclose the point result, with the NaN-interval convention. Proved in Verus on the real text under the stated float axioms (monotone correctly-rounded + - *, NaN propagation, total order): Add, Sub, Mul<f32>, Neg are total on all valid intervals and enclose exactly (0 ulp). The interpreter dispatch is proved (unit vm: VmIntervalEval::eval applies, for every RegOp variant, the Interval method of that name to the right operands in the right order and writes the right slot). The remaining arithmetic and transcendental operations and the JIT are bounded stand-ins on a stated grid.',
-    'level_note': 'Trusted: Kani/CBMC, Verus+Z3 with the float axioms of unit interval. Bounded only: mul, div, square, trig, atan2, rem_euclid, mix, rand; JIT; the composition of per-operation enclosure over a whole tape is the standard induction over the proved run equation (not mechanised). Out of scope: wgsl shader.',
+    'level_note': 'Trusted: Kani/CBMC, Verus+Z3 with the float axioms of unit interval. Bounded only: mul, div, square, trig, atan2, rem_euclid, mix, rand; JIT; the composition of per-operation enclosure over a whole tape is mechanised for an abstract relation (unit vm, lemma_enc_run); that each real operation respects the real relation is established per operation by the other legs (known findings K1, K4 are where it does not). Out of scope: wgsl shader.',
     'legs': [leg_kani('leaf'), leg_verus('interval'), leg_verus('vm'), leg_bounded('interp_interval'), leg_bounded('jit_interval')],
     'cex': ['interp_interval'],
     'explanation': 'The local obligation per opcode is exactly the observation the property names: a in A, b in B => op(a,b) in OP(A,B) unless NaN.',
